@@ -119,6 +119,8 @@ pub struct FontInfo {
     /// openTypeOS2UnicodeRanges / openTypeOS2CodePageRanges: None = key absent, Some(vec![]) = explicitly empty
     pub os2_unicode_ranges: Option<Vec<u32>>,
     pub os2_codepage_ranges: Option<Vec<u32>>,
+    /// openTypeNameRecords (Windows / Unicode BMP / en-US): (name id, string)
+    pub name_records: Vec<(u16, String)>,
 }
 
 #[derive(Clone, Debug)]
@@ -777,6 +779,8 @@ fn gen_naming(f: &mut SynthFont, g: &mut Gen) {
         a.other_labels = match c { 0 => vec![("de".to_string(), format!("{}-de", a.name))], 1 => vec![("fr".to_string(), format!("{}-fr", a.name)), ("de".to_string(), format!("{}-de", a.name)), ("ja".to_string(), "\u{592a}\u{3055}".to_string())], _ => vec![] };
     }
     for a in f.axes.iter_mut() { let c = g.below(6); a.label = match c { 0 => Some(d_fam.clone()), 1 => Some(d_style.clone()), 2 => Some(format!("{} Axis", a.name)), 3 => Some("Weight".to_string()), _ => None }; if a.label.as_deref() == Some("") { a.label = None; } }
+    // name records the source supplies under font-specific ids (they must survive next to the ids the compiler allocates)
+    match g.below(5) { 0 => f.sources[0].info.name_records.push((256, "Source Record 256".to_string())), 1 => { f.sources[0].info.name_records.push((257, "Source Record 257".to_string())); f.sources[0].info.name_records.push((300, "Source Record 300".to_string())); } _ => {} }
     // names supplied through feature code: a stylistic set with featureNames, registered for several language
     // systems and with a language-specific lookup, so that the tag has more than one feature record
     let ex: Vec<String> = f.glyphs.iter().filter(|x| x.export && x.name != ".notdef" && !x.name.contains('"') && x.name.chars().all(|c| c.is_ascii_alphanumeric() || c == '.' || c == '_')).map(|x| x.name.clone()).collect();
@@ -790,6 +794,16 @@ fn gen_naming(f: &mut SynthFont, g: &mut Gen) {
         if fea_variant == 3 && c != b { t.push_str(&format!("  script latn;\n  language TRK;\n  sub {c} by {b};\n")); }
         t.push_str("} ss01;\n");
         f.features = Some(t);
+    }
+    // a STAT table written in feature code, with the elided fallback name given by id or by string
+    let stat_variant = g.below(5);
+    if stat_variant <= 1 {
+        if let Some(a) = f.axes.iter().find(|a| !a.is_point()) {
+            let mut t = f.features.clone().unwrap_or_default();
+            let elided = if stat_variant == 0 { "ElidedFallbackNameID 2;".to_string() } else { "ElidedFallbackName { name \"Elided\"; };".to_string() };
+            t.push_str(&format!("table STAT {{\n  {elided}\n  DesignAxis {} 0 {{ name \"Stat {}\"; }};\n  AxisValue {{ location {} {}; name \"Stat Default\"; flag ElidableAxisValueName; }};\n}} STAT;\n", a.tag, a.name, a.tag, crate::synth::ufo::num(a.u_default())));
+            f.features = Some(t);
+        }
     }
     let n_inst = f.instances.len();
     for (k, inst) in f.instances.iter_mut().enumerate() {
